@@ -142,8 +142,8 @@ func (o *Origin) subOrigin(c ssa.CallInstruction, callee *ssa.Function) *Origin 
 	return sub
 }
 
-// VCall is a call site of the function under analysis or of a transparent helper it calls (depth <= 3), described in the
-// vocabulary of the function under analysis.
+// VCall is a call site of the function under analysis or of a helper it calls (depth <= 3), described in the vocabulary of the
+// function under analysis.
 type VCall struct {
 	Term   *Term               // the call's term, parameters of helpers replaced by the argument terms
 	Instr  ssa.CallInstruction // the real call instruction (possibly inside a helper)
@@ -151,57 +151,95 @@ type VCall struct {
 	Callee *ssa.Function
 	Name   string
 	Direct bool
-	Always bool // inside helpers: the call dominates every success return of each helper on the chain
+	Always bool     // inside helpers: the call dominates every success return of each helper on the chain
+	Cond   *Formula // path condition at the call: the analysed function's condition at Root ∧ the helpers' own conditions (when a Facts was given)
+	In     *Origin  // the Origin of the function containing Instr (sub-origin for helper levels)
+	InFa   *Facts
+}
+
+// helperShaped: like transparent, but the function may itself call keepers outside the module (used only for descending into
+// call sites, never for summarising values).
+func (p *Prog) helperShaped(fn *ssa.Function) bool {
+	if p.transparent(fn) {
+		return true
+	}
+	if fn == nil || fn.Blocks == nil || !InModule(fn) || p.IsGenerated(fn) || p.hasOwnStoreOp(fn) || len(fn.Blocks) > 40 {
+		return false
+	}
+	if n := fn.Name(); n == "" || !(n[0] >= 'a' && n[0] <= 'z') {
+		return false
+	}
+	for _, b := range fn.Blocks {
+		if b == fn.Recover {
+			continue
+		}
+		if inCycle(b) {
+			return false
+		}
+		for _, in := range b.Instrs {
+			switch in.(type) {
+			case *ssa.Go, *ssa.Defer, *ssa.Select, *ssa.Send:
+				return false
+			}
+		}
+	}
+	return true
 }
 
 // VirtualCalls lists the call sites of o.fn, descending into transparent helpers.
-func (o *Origin) VirtualCalls() []VCall {
+func (o *Origin) VirtualCalls() []VCall { return o.VirtualCallsX(nil, false) }
+
+// VirtualCallsX: with fa, every entry carries its path condition; with deep, helpers that call outside keepers are entered too.
+func (o *Origin) VirtualCallsX(fa *Facts, deep bool) []VCall {
 	var out []VCall
-	var walk func(cur *Origin, root ssa.CallInstruction, always bool, depth int)
-	walk = func(cur *Origin, root ssa.CallInstruction, always bool, depth int) {
+	var walk func(cur *Origin, curFa *Facts, root ssa.CallInstruction, always bool, cond *Formula, depth int)
+	walk = func(cur *Origin, curFa *Facts, root ssa.CallInstruction, always bool, cond *Formula, depth int) {
 		for _, cs := range callSites(cur.fn) {
 			r := root
 			if r == nil {
 				r = cs.Instr
 			}
-			vc := VCall{Instr: cs.Instr, Root: r, Callee: cs.Callee, Name: cs.Name, Direct: root == nil, Always: always}
+			selfAlways := always
+			if depth > 0 {
+				// inside a helper: the call counts as "always" when it dominates every success return of that helper
+				if in, ok := cs.Instr.(ssa.Instruction); ok {
+					for _, rt := range successReturns(cur.fn) {
+						if !cur.dominates(in, rt) {
+							selfAlways = false
+						}
+					}
+				}
+			}
+			vc := VCall{Instr: cs.Instr, Root: r, Callee: cs.Callee, Name: cs.Name, Direct: root == nil, Always: selfAlways, In: cur, InFa: curFa}
 			if c, ok := cs.Instr.(*ssa.Call); ok {
-				save := cur.NoInline
 				vc.Term = cur.callAtomic(c)
-				cur.NoInline = save
+			}
+			if curFa != nil {
+				here := curFa.At(cs.Instr.(ssa.Instruction).Block())
+				if cond != nil {
+					vc.Cond = fAnd(cond, here)
+				} else {
+					vc.Cond = here
+				}
 			}
 			out = append(out, vc)
-			if cs.Callee != nil && depth < 3 && cs.Callee != cur.fn && o.p.transparent(cs.Callee) {
-				if _, isDefer := cs.Instr.(*ssa.Defer); isDefer {
-					continue
-				}
-				sub := cur.subOrigin(cs.Instr, cs.Callee)
-				// "always": the inner call sites that dominate every success return of the helper
-				walkHelper(sub, r, always, depth+1, walk, &out)
+			enter := cs.Callee != nil && depth < 3 && cs.Callee != cur.fn && (o.p.transparent(cs.Callee) || deep && o.p.helperShaped(cs.Callee))
+			if !enter {
+				continue
 			}
+			if _, isDefer := cs.Instr.(*ssa.Defer); isDefer {
+				continue
+			}
+			sub := cur.subOrigin(cs.Instr, cs.Callee)
+			var subFa *Facts
+			if curFa != nil {
+				subFa = &Facts{p: o.p, fn: cs.Callee, o: sub, memo: map[*ssa.BasicBlock]*Formula{}, ErrExpand: func(*Formula) int { return 2 }}
+			}
+			walk(sub, subFa, r, selfAlways, vc.Cond, depth+1)
 		}
 	}
-	walk(o, nil, true, 0)
+	walk(o, fa, nil, true, nil, 0)
 	return out
-}
-
-func walkHelper(sub *Origin, root ssa.CallInstruction, always bool, depth int, walk func(*Origin, ssa.CallInstruction, bool, int), out *[]VCall) {
-	before := len(*out)
-	walk(sub, root, always, depth)
-	// fix the Always flag of the entries just added at this level: they must dominate all success returns of sub.fn
-	rets := successReturns(sub.fn)
-	for i := before; i < len(*out); i++ {
-		vc := &(*out)[i]
-		in, ok := vc.Instr.(ssa.Instruction)
-		if !ok || in.Parent() != sub.fn {
-			continue
-		}
-		for _, r := range rets {
-			if !sub.dominates(in, r) {
-				vc.Always = false
-			}
-		}
-	}
 }
 
 // successProjection builds the tuple term of a call to an errHelper: non-error components are the common success-return terms
